@@ -146,4 +146,18 @@ prop("C14",
      bounds={"quick": "7680 tuples x 5 outcomes; strings N=5", "thorough": "same tuples; strings N=8 (2.0 M x 5)"},
      runs=[dict(name="h_url", sources=["harness/h_url.c"], profile="asan", wraps=["getprotobyname", "getservbyname"], args={"quick": ["--N=5"], "thorough": ["--N=8"]})],
      deadline={"quick": 200, "thorough": 2400})
+
+
+prop("C19",
+     level="fault_enumeration",
+     technique="deviation-bounded exhaustive enumeration of read()/write() answers (E3) on the real send/recv path, and explicit-state BFS over socket lifecycle histories with injected syscall failures against a descriptor-ownership model",
+     rule="transfer: for every payload length in {1,2,4095,4096,4097,8192,16385,20000} x {peer closes, stays open}, every sequence of answers for the first k read/write calls with at most d non-default answers "
+          "({complete,1 byte,half,EINTR} on read, +EAGAIN on write) is executed on a real UNIX-domain connection and the received bytes compared with the payload; "
+          "lifecycle: BFS over {new, open, open with socket/bind/listen/connect failure, accept, failed accept, set_nbio, send, recv, close, dup, del} with the invariant fd>=0 <=> owns an open descriptor "
+          "and a descriptor census after deleting everything; non-trivial = every transfer case (each expands into its schedule tree) + distinct lifecycle states",
+     bounds={"quick": "k=4 calls, <=2 deviations; lifecycle depth 5", "thorough": "k=6 calls, <=3 deviations; lifecycle depth 7"},
+     runs=[dict(name="h_sock", sources=["harness/h_sock.c"], profile="asan",
+                wraps=["read", "write", "select", "socket", "bind", "listen", "connect", "accept"],
+                args={"quick": ["--k=4", "--dev=2", "--depth=5"], "thorough": ["--k=6", "--dev=3", "--depth=7"]})],
+     deadline={"quick": 240, "thorough": 3000})
 NOT_CLAIMED = {}
